@@ -6,6 +6,11 @@
 //!   c16 repair <t:id:cold|~:hot|~>;…   stores set up directly, then `Repository::repair_hotcold_except_packs`
 //!   c16 repo <seed>        repository level on a cold-strict cold store: backup / forget / prune / check / restore /
 //!                          repair-index / hot damage + repair; invariant monitor on the two stores after every command
+//!   c16 repo-hist <steps> <seed>   the same with an explicit step list (`STEP_LETTERS`), incl. index damage + `repair_index`:
+//!                          I all index files lost (hot and cold) · J some index files lost · u an interrupted backup (packs written,
+//!                          its index files and snapshot never) · w index rewritten with wrong pack sizes / packs dropped; each followed
+//!                          by the real `repair_index` (mostly without read_all) behind a spy on the cold store that records the ORDER
+//!                          of warm-up requests and pack reads; first step `N` = the cold store does not need warm-up
 //! Direct oracles (`oracle-fail:`): hot ⊇ cold for key/snapshot/index/tree packs with identical bytes after every
 //! step incl. failed ones, no data pack in hot, repair leaves cold untouched and hot complete, commands succeed on a
 //! cold store that refuses reads of packs that were not warmed up, results equal the source.
@@ -15,6 +20,7 @@ use std::sync::Arc;
 
 use bytes::Bytes;
 use rustic_core::repofile::{FileType, SnapshotFile};
+use rustic_core::verif::decrypt::DecryptReadBackend;
 use rustic_core::{
     BackupOptions, BytesList, CheckOptions, ConfigOptions, Id, PruneOptions, ReadBackend, Repository, RepositoryBackends,
     WriteBackend,
@@ -301,6 +307,84 @@ fn unwarmed_cold_read(cold: &MemBackend) -> Option<&'static str> {
     None
 }
 
+// ---------------------------------------------------------------------------------- cold-store spy
+
+/// What the cold store sees of pack files, in order: `(true, id)` = warm-up request, `(false, id)` = read (full or partial).
+type SpyLog = Arc<std::sync::Mutex<Vec<(bool, Id)>>>;
+
+/// The cold `MemBackend` behind a wrapper recording the ORDER of warm-up requests and pack reads.
+#[derive(Clone, Debug)]
+struct ColdSpy {
+    be: MemBackend,
+    log: SpyLog,
+}
+
+impl ReadBackend for ColdSpy {
+    fn location(&self) -> String {
+        self.be.location()
+    }
+    fn list_with_size(&self, tpe: FileType) -> rustic_core::RusticResult<Vec<(Id, u32)>> {
+        self.be.list_with_size(tpe)
+    }
+    fn read_full(&self, tpe: FileType, id: &Id) -> rustic_core::RusticResult<Bytes> {
+        if tpe == FileType::Pack {
+            self.log.lock().unwrap().push((false, *id));
+        }
+        self.be.read_full(tpe, id)
+    }
+    fn read_partial(&self, tpe: FileType, id: &Id, cacheable: bool, offset: u32, length: u32) -> rustic_core::RusticResult<Bytes> {
+        if tpe == FileType::Pack {
+            self.log.lock().unwrap().push((false, *id));
+        }
+        self.be.read_partial(tpe, id, cacheable, offset, length)
+    }
+    fn warmup_path(&self, tpe: FileType, id: &Id) -> String {
+        self.be.warmup_path(tpe, id)
+    }
+    fn needs_warm_up(&self) -> bool {
+        self.be.needs_warm_up()
+    }
+    fn warm_up(&self, tpe: FileType, id: &Id) -> rustic_core::RusticResult<()> {
+        if tpe == FileType::Pack {
+            self.log.lock().unwrap().push((true, *id));
+        }
+        self.be.warm_up(tpe, id)
+    }
+}
+
+impl WriteBackend for ColdSpy {
+    fn create(&self) -> rustic_core::RusticResult<()> {
+        self.be.create()
+    }
+    fn write_bytes(&self, tpe: FileType, id: &Id, cacheable: bool, content: BytesList) -> rustic_core::RusticResult<()> {
+        self.be.write_bytes(tpe, id, cacheable, content)
+    }
+    fn remove(&self, tpe: FileType, id: &Id, cacheable: bool) -> rustic_core::RusticResult<()> {
+        self.be.remove(tpe, id, cacheable)
+    }
+}
+
+/// every pack read the cold store saw has a warm-up request for that pack EARLIER in the sequence
+fn read_before_warm_up(log: &SpyLog) -> bool {
+    let g = log.lock().unwrap();
+    g.iter().enumerate().any(|(k, (warm, id))| !*warm && !g[..k].iter().any(|(w, i)| *w && i == id))
+}
+
+/// pack ids listed by the index files of the cold store (under `packs` or `packs_to_delete`), read through the repository
+fn indexed_packs(h: &RepoHandle, cold: &MemBackend) -> Option<BTreeSet<Id>> {
+    use rustic_core::repofile::{IndexFile, IndexId};
+    let repo = h.open().ok()?;
+    let dbe = rustic_core::verif::repository::dbe(&repo);
+    let mut out = BTreeSet::new();
+    for id in cold.ids(FileType::Index) {
+        let f: IndexFile = dbe.get_file(&IndexId::from(id)).ok()?;
+        for p in f.packs.iter().chain(f.packs_to_delete.iter()) {
+            _ = out.insert(Id::from(*p.id));
+        }
+    }
+    Some(out)
+}
+
 const REPO_CHUNK: usize = 4096;
 
 /// Step letters of a repository-level history:
@@ -308,15 +392,23 @@ const REPO_CHUNK: usize = 4096;
 ///   p prune with instant_delete · m prune that only MARKS packs (default keep_delete 23h: unused / repacked packs stay in the
 ///   cold store, listed under `packs_to_delete`) · k prune with keep_delete = 0 (deletes marked packs) · i repair index ·
 ///   x a random subset of the hot files is lost, then repair hotcold (+ packs) · X the whole hot store (all but the config
-///   file) is lost, then repair
-const STEP_LETTERS: &str = "bfFpmkixX";
+///   file) is lost, then repair ·
+///   index damage followed by `repair_index` (read_all in 1/3 of the cases) behind the cold-store spy:
+///   I ALL index files are lost (removed from the hot and the cold store) · J a random non-empty subset of them ·
+///   u an interrupted backup: its packs are in the repository, its index files and its snapshot are not ·
+///   w the index is rewritten as one file in which some packs carry a wrong pack size and some are missing ·
+///   N (first step only) the cold store does NOT need warm-up (reads are never refused, no warm-up oracles)
+const STEP_LETTERS: &str = "bfFpmkixXIJuwN";
 
 fn random_steps(rng: &mut Rng) -> String {
     let n = 4 + rng.below(4);
     // the first command is a backup (commands on an empty repository are covered by the later steps of other runs)
     let mut v = vec!["b"];
     for _ in 1..n {
-        v.push(*rng.pick(&["b", "b", "b", "b", "f", "F", "p", "m", "m", "k", "i", "x", "X"]));
+        v.push(*rng.pick(&["b", "b", "b", "b", "f", "F", "p", "m", "m", "k", "i", "x", "X", "I", "J", "u", "w"]));
+    }
+    if rng.chance(1, 8) {
+        v.insert(0, "N");
     }
     v.join(",")
 }
@@ -343,11 +435,18 @@ pub fn repo_hist(steps: &str, seed: u64, read_data_check: bool) -> String {
     let Ok((h, _)) = RepoHandle::init(cold.clone(), Some(hot.clone()), &cfg) else { return "err:init".into() };
     let mut tree: BTreeSet<Id> = BTreeSet::new();
     harvest_tree_packs(&cold, &mut tree);
-    // from now on the cold store refuses reads of packs that were not warmed up
-    cold.set_cold(true);
+    // from now on the cold store refuses reads of packs that were not warmed up (unless the history starts with `N`)
+    let strict = steps[0] != 'N';
+    if steps[1..].contains(&'N') {
+        return "bad-op".into();
+    }
+    cold.set_cold(strict);
     let opts = RepoHandle::default_opts();
     let mut sources: Vec<(Id, MemSource)> = Vec::new();
     for (step, kind) in steps.iter().enumerate() {
+        if *kind == 'N' {
+            continue;
+        }
         let Ok(repo) = h.open_with(&opts) else { return format!("oracle-fail:open-step{step}") };
         let what;
         cold.clear_log();
@@ -417,6 +516,99 @@ pub fn repo_hist(steps: &str, seed: u64, read_data_check: bool) -> String {
                     return format!("oracle-fail:repair-index-fails-on-cold-strict-store-step{step}");
                 }
             }
+            'I' | 'J' | 'u' | 'w' => {
+                what = match kind {
+                    'I' => "repair-index-after-all-index-files-lost",
+                    'J' => "repair-index-after-some-index-files-lost",
+                    'u' => "repair-index-after-interrupted-backup",
+                    _ => "repair-index-after-wrong-sizes-and-dropped-packs",
+                };
+                let index_ids = cold.ids(FileType::Index);
+                let lose = |ids: &[Id]| {
+                    for id in ids {
+                        hot.del_raw(FileType::Index, id);
+                        cold.del_raw(FileType::Index, id);
+                    }
+                };
+                match kind {
+                    'I' => lose(&index_ids),
+                    'J' => {
+                        let mut sub: Vec<Id> = index_ids.iter().copied().filter(|_| rng.chance(1, 2)).collect();
+                        if sub.is_empty() {
+                            sub.extend(index_ids.first().copied());
+                        }
+                        lose(&sub);
+                    }
+                    'u' => {
+                        // a backup whose packs reach the repository but whose index files and snapshot do not
+                        let snaps_before: BTreeSet<Id> = cold.ids(FileType::Snapshot).into_iter().collect();
+                        let entries: Vec<SrcEntry> = (0..1 + rng.below(3))
+                            .map(|i| {
+                                let len = *rng.pick(&[10usize, 3000, 9000, 70_000]);
+                                let mut e = SrcEntry::file(&[format!("u{step}").as_bytes(), format!("f{i}").as_bytes()], &rng.bytes(len));
+                                e.mtime_s += 100 * (step as i64 + 1) + i as i64;
+                                e
+                            })
+                            .collect();
+                        let Ok(r) = repo.to_indexed_ids() else { return format!("oracle-fail:index-step{step}") };
+                        if r.archive(&BackupOptions::default(), &MemSource::new(entries), SnapshotFile::default(), &[PathBuf::from(crate::repo::SRC_ROOT)]).is_err() {
+                            return format!("oracle-fail:backup-step{step}");
+                        }
+                        harvest_tree_packs(&cold, &mut tree);
+                        let new_idx: Vec<Id> = cold.ids(FileType::Index).into_iter().filter(|i| !index_ids.contains(i)).collect();
+                        lose(&new_idx);
+                        for id in cold.ids(FileType::Snapshot) {
+                            if !snaps_before.contains(&id) {
+                                hot.del_raw(FileType::Snapshot, &id);
+                                cold.del_raw(FileType::Snapshot, &id);
+                            }
+                        }
+                    }
+                    _ => {
+                        use rustic_core::repofile::{IndexFile, IndexId};
+                        let dbe = rustic_core::verif::repository::dbe(&repo);
+                        let mut all = IndexFile::default();
+                        for id in &index_ids {
+                            let Ok(f) = dbe.get_file::<IndexFile>(&IndexId::from(*id)) else { return format!("oracle-fail:index-unreadable-step{step}") };
+                            all.packs.extend(f.packs);
+                            all.packs_to_delete.extend(f.packs_to_delete);
+                        }
+                        for l in [&mut all.packs, &mut all.packs_to_delete] {
+                            l.retain(|_| !rng.chance(1, 4));
+                            for p in l.iter_mut() {
+                                if rng.chance(1, 2) {
+                                    p.size = Some(p.pack_size() + 1 + rng.below(50) as u32);
+                                }
+                            }
+                        }
+                        lose(&index_ids);
+                        if !(all.packs.is_empty() && all.packs_to_delete.is_empty()) && rustic_core::verif::repository::save_file(&repo, &all).is_err() {
+                            return format!("oracle-fail:save-index-step{step}");
+                        }
+                    }
+                }
+                // the real `repair_index` on a repository whose cold store is wrapped by the spy
+                let read_all = rng.chance(1, 3);
+                let spy = ColdSpy { be: cold.clone(), log: SpyLog::default() };
+                let bes = RepositoryBackends::new(Arc::new(spy.clone()), Some(Arc::new(hot.clone())));
+                let Ok(r) = Repository::new(&opts, &bes).and_then(|r| r.open(&rustic_core::Credentials::Masterkey(h.key.clone()))) else {
+                    return format!("oracle-fail:open-step{step}");
+                };
+                cold.clear_log();
+                cold.inner.lock().unwrap().warm.clear();
+                if r.repair_index(&rustic_core::RepairIndexOptions::default().read_all(read_all), false).is_err() {
+                    return format!("oracle-fail:repair-index-fails-on-cold-strict-store-step{step}");
+                }
+                // (1) every pack read the cold store saw was preceded by a warm-up request for that pack
+                if strict && read_before_warm_up(&spy.log) {
+                    return format!("oracle-fail:cold-pack-read-before-warm-up-request-during-{what}{}", if read_all { "-read-all" } else { "" });
+                }
+                // (2) every pack of the cold store is listed by the new index
+                let Some(listed) = indexed_packs(&h, &cold) else { return format!("oracle-fail:index-unreadable-after-{what}") };
+                if cold.ids(FileType::Pack).iter().any(|p| !listed.contains(p)) {
+                    return format!("oracle-fail:cold-pack-not-in-index-after-{what}{}", if read_all { "-read-all" } else { "" });
+                }
+            }
             _ => {
                 what = if *kind == 'X' { "hot-store-lost+repair" } else { "hot-damage+repair" };
                 // lose hot files (all types but the config file): everything, or a random subset; then repair
@@ -443,8 +635,10 @@ pub fn repo_hist(steps: &str, seed: u64, read_data_check: bool) -> String {
             return format!("{m}-after-{what}");
         }
         // every pack read that reached the cold store during the command was requested to be warmed up (by that command)
-        if let Some(m) = unwarmed_cold_read(&cold) {
-            return format!("{m}-during-{what}");
+        if strict {
+            if let Some(m) = unwarmed_cold_read(&cold) {
+                return format!("{m}-during-{what}");
+            }
         }
         // results as on a single store: check clean, every snapshot reads back; restore needs data packs from cold
         cold.inner.lock().unwrap().warm.clear();
@@ -515,7 +709,7 @@ pub fn repo_hist(steps: &str, seed: u64, read_data_check: bool) -> String {
                 return format!("oracle-fail:restore-{e}{}", if round == 1 { "-over-existing-files" } else { "" });
             }
             // every pack read from the cold store was requested to be warmed up before
-            if let Some(m) = unwarmed_cold_read(&cold) {
+            if let Some(m) = unwarmed_cold_read(&cold).filter(|_| strict) {
                 return format!("{m}-during-restore{}", if round == 1 { "-over-existing-files" } else { "" });
             }
             for e in &src.entries {
@@ -757,6 +951,30 @@ pub fn generate(thorough: bool, rng: &mut Rng, ops: &mut Vec<String>, stats: &mu
             st.push(*rng.pick(&["b", "k", "p", "m", "i", "x", "f"]));
         }
         stats.hit("repo-hist.marked-packs-then-hot-loss");
+        ops.push(format!("c16 repo-hist {} {}", st.join(","), rng.below(1 << 32)));
+    }
+    // directed histories: backups (+ forget / marking prune), then the index is lost completely / partly / an interrupted backup
+    // leaves packs unindexed / index entries carry wrong pack sizes — each followed by `repair_index` (mostly WITHOUT read_all) on
+    // the cold-strict store; afterwards further commands on the repaired repository
+    let n_idx = if thorough { 1000 } else { 32 };
+    for k in 0..n_idx {
+        let mut st: Vec<&str> = Vec::new();
+        if rng.chance(1, 8) {
+            st.push("N");
+        }
+        for _ in 0..1 + rng.below(3) {
+            st.push("b");
+        }
+        if rng.chance(1, 3) {
+            st.push(*rng.pick(&["f", "F"]));
+            st.push(*rng.pick(&["m", "b"]));
+        }
+        let dmg = ["I", "J", "u", "w"][k % 4];
+        st.push(dmg);
+        for _ in 0..rng.below(3) {
+            st.push(*rng.pick(&["b", "p", "m", "i", "I", "J", "u", "w", "x", "f"]));
+        }
+        stats.hit(format!("repo-hist.index-damage-{dmg}-then-repair-index"));
         ops.push(format!("c16 repo-hist {} {}", st.join(","), rng.below(1 << 32)));
     }
     // DESIGN §7 #15 (known finding): check --read-data on a warmed-up hot/cold repository
